@@ -24,7 +24,7 @@ def run_cases(ctx, cases):
     """cases: list of dicts with t, v, optional top, modes, tag.  Returns (records, crashes)."""
     for i, c in enumerate(cases):
         c["id"] = i + 1
-    send = [{k: c[k] for k in ("id", "t", "v", "top", "modes", "seq", "writer", "tz") if k in c} for c in cases]
+    send = [{k: c[k] for k in ("id", "t", "v", "top", "modes", "seq", "writer", "tz", "reuse") if k in c} for c in cases]
     obs_by_id, crashes = hv.run_harness_resilient("io", send, timeout=1800)
     lines, index = [], []
     for c in cases:
